@@ -483,6 +483,9 @@ func registerExterns(w *World) {
 		if !st.dry {
 			ex.blocking = append(ex.blocking, blockingOp{Site: c.site, Kind: "external", Cancellable: false, Note: "os.OpenFile on a FIFO"})
 		}
+		if len(c.args) >= 3 {
+			ex.assertAt(st, "OpenFile", map[string]Val{"name": c.args[0], "flag": c.args[1], "perm": c.args[2]})
+		}
 		f := ex.fresh("file", "Int")
 		e := ex.fresh("openerr", "Int")
 		st.assume("(>= " + f + " 0)")
